@@ -102,7 +102,7 @@ inline const std::vector<ByteTemplate>& byte_templates() {
 }
 inline std::vector<int> byte_positions(bool thorough) {
   if (thorough) { std::vector<int> v; for (int i = 0; i <= 40; i++) v.push_back(i); return v; }
-  return {0, 1, 7, 8, 9, 15, 16, 17, 31, 32, 33};
+  return {0, 1, 2, 3, 7, 8, 9, 15, 16, 17, 23, 24, 25, 31, 32, 33, 39, 40};
 }
 
 // ---- E-host: every host of <= k characters over an alphabet aimed at the "ends in a number" / IPv4 decisions
